@@ -32,38 +32,55 @@ CTX_ATTRS = ("database", "schema", "database_set", "schema_set")
 
 
 def rule_handle(ctx):
-    """C03.a: every construction site of the connection passes a fresh cursor of the instance handle."""
-    from .c14 import _bind_call, _is_conn_ctor
+    """C03.a: every connection made by an instance gets its own fresh cursor of the instance's engine connection
+    (abstract heap identity: not the instance connection itself, not a handle shared with another connection)."""
+    from ..connectmodel import Point
+    from ..execmodel import R
+    from ..interp import explore
+    from ..values import ClsRef, Obj
+    from .c19 import InstHooks
 
     prog = ctx.prog
-    n = 0
-    for mname, m in prog.modules.items():
-        for qual, fn in m.functions.items():
-            for call in ast.walk(fn):
-                if isinstance(call, ast.Call) and _is_conn_ctor(prog, m, call):
-                    n += 1
-                    params = [a.arg for a in prog.fn("conn", "FakeSnowflakeConnection.__init__").args.args]
-                    handle = _bind_call(call, params).get("duck_conn")
-                    ok = (isinstance(handle, ast.Call) and isinstance(handle.func, ast.Attribute)
-                          and handle.func.attr == "cursor" and not handle.args
-                          and norm(handle.func.value).startswith("self."))
-                    if ok:
-                        # the receiver must be the attribute assigned from duckdb.connect(...)
-                        attr = handle.func.value.attr if isinstance(handle.func.value, ast.Attribute) else None
-                        cls = qual.split(".")[0]
-                        init = m.functions.get(f"{cls}.__init__")
-                        ok = bool(init) and any(
-                            isinstance(s, ast.Assign) and isinstance(s.targets[0], ast.Attribute) and s.targets[0].attr == attr
-                            and isinstance(s.value, ast.Call) and (prog.dotted(m, s.value.func) or "") == "duckdb.connect"
-                            for s in ast.walk(init))
-                    ctx.ob("C03.a", f"{mname}.{qual}: engine handle argument is a fresh cursor()", ok, m.loc(call))
-                    if not ok:
-                        ctx.violation("C03.a", mname, qual, call, m.loc(call),
-                                      f"the connection is constructed with `{norm(handle) if handle is not None else '?'}` instead of a "
-                                      f"fresh `.cursor()` of the instance's engine connection: SET schema and transactions "
-                                      f"are per engine cursor, so sessions would share their current database/schema")
-    ctx.floor("connection construction sites", n, 1)
     ctx.analysed("instance.FakeSnow.connect", "instance.FakeSnow.__init__")
+    n = 0
+    for with_db in (True, False):
+        pt = Point(with_db, "user" if with_db else None, True, True, False, False, False)
+
+        def run(I, with_db=with_db):
+            fs = I.construct(ClsRef("fakesnow.instance.FakeSnow"), [], {}, None)
+            args = [Sym("database", truthy=True, typ="str"), Sym("schema", truthy=True, typ="str")] if with_db else []
+            c1 = I.call(I.getattr(fs, "connect"), list(args), {}, None)
+            c2 = I.call(I.getattr(fs, "connect"), list(args), {}, None)
+            return Tup_([fs, c1, c2])
+
+        from ..values import Tup as Tup_
+        for p in explore(prog, lambda pt=pt: InstHooks(pt), run, max_paths=64):
+            if p.outcome != "return":
+                continue
+            n += 1
+            fs, c1, c2 = p.value.items
+            root = next((v for v in fs.attrs.values() if isinstance(v, Obj) and v.kind == "duck"), None) if isinstance(fs, Obj) else None
+            h1 = c1.attrs.get(R().conn_duck) if isinstance(c1, Obj) else None
+            h2 = c2.attrs.get(R().conn_duck) if isinstance(c2, Obj) else None
+            probs = []
+            for h in (h1, h2):
+                if not isinstance(h, Obj) or h.kind != "duck":
+                    probs.append(f"a connection's engine handle is `{tagof(h)}`")
+                elif h is root:
+                    probs.append("a connection uses the instance's root engine connection itself")
+                elif h.attrs.get("parent") is not root:
+                    probs.append("a connection's handle is not a cursor of the instance's engine connection")
+            if h1 is h2 and isinstance(h1, Obj):
+                probs.append("two connections share one engine cursor")
+            label = "with a database" if with_db else "without a database"
+            ctx.ob("C03.a", f"two connects {label}: each gets its own fresh engine cursor", not probs, "fakesnow/instance.py", "; ".join(probs))
+            if probs:
+                fnode = prog.fn("instance", "FakeSnow.connect")
+                ctx.violation("C03.a", "instance", "FakeSnow.connect", f"engine handle of a connection made {label}", prog.mod("instance").loc(fnode),
+                              f"connect() {label}: {probs[0]} — SET schema, transactions and pending results belong to one engine cursor, so "
+                              f"sessions would share their current database/schema, transaction and result set")
+            break
+    ctx.floor("C03.a connect scenarios", n, 2)
 
 
 def rule_after_accept(ctx):
